@@ -65,7 +65,7 @@ def main():
     bad = 0
     with concurrent.futures.ThreadPoolExecutor(jobs) as ex:
         for m, verdict, out in ex.map(run_one, muts):
-            good = verdict.startswith('KILLED') or verdict == 'QUIET'
+            good = verdict.startswith('KILLED') or verdict == 'QUIET' or verdict == 'STALE'
             print('%-12s %-4s %-28s %s' % (verdict, m['property'], m['id'], m.get('what', '')))
             if not good:
                 bad += 1
